@@ -10,6 +10,7 @@ Algorithm = runner.M['algorithm'].Algorithm
 CATS = ('kex', 'key', 'enc', 'mac')
 FMT = {'OpenSSH': 'SSH-2.0-OpenSSH_%s', 'Dropbear SSH': 'SSH-2.0-dropbear_%s', 'libssh': 'SSH-2.0-libssh-%s', 'TinySSH': 'SSH-2.0-tinyssh_%s'}
 UNRECOGNISED = [b'SSH-2.0-FrobSSH_1.0', b'SSH-2.0-', b'SSH-2.0-RomSShell_4.62', b'SSH-2.0-PuTTY_Release_0.80', b'SSH-2.0-OpenSSH']
+SUFFIXES = {'Dropbear SSH': [b'_agbn_1', b'-Freesco-p49', b'_x'], 'OpenSSH': [b'p1 Debian-5', b'p2', b'p1', b' FreeBSD-20200214']}
 CONTROL_NOTE = 'A bug in OpenSSH causes it to fall back to a 2048-bit modulus'
 
 
@@ -39,6 +40,12 @@ def banners(tier):
             vs = [v for i, v in enumerate(vs) if i % 3 == 0] + EXTRA[prod][:2]
         for v in sorted(set(vs)):
             out.append((prod, v, (FMT[prod] % v).encode()))
+    # vendor builds: a suffix after the version does not make the software older than the release it is built from
+    for prod, vers in dv.items():
+        sfx = SUFFIXES.get(prod, [])
+        for v in sorted(vers):
+            for x in (sfx if tier != 'quick' else sfx[:2]):
+                out.append((prod, v, (FMT[prod] % v).encode() + x))
     out.append(('TinySSH', '20190101', b'SSH-2.0-tinyssh_20190101'))
     for b in UNRECOGNISED:
         out.append((None, None, b))
